@@ -186,6 +186,42 @@ func (w *udpWorld) arrive(si, n, srcSel, flags int, wait bool) {
 	}
 	dg := codec.EncodeUDP([]byte(src), []byte(dst), sport, s.port, a.payload)
 	dup := flags&2 != 0
+	if flags&32 != 0 && !v6 && !s.conn && !dup && wait && len(dg) >= 32 {
+		// two senders, one IP identification: this datagram and one from the other peer (same ports), both in two
+		// fragments, interleaved A1 B1 B2 A2 - two datagrams, each whole, each from its own sender; B is complete first
+		other := udpPeers4[1-srcSel%2]
+		w.narr++
+		b := &udpArrival{id: w.narr, payload: udpPayload(w.seed, w.narr, n), src: other, sport: sport, afterRC: s.readClose, copies: 1}
+		b.mustN = []bool{!s.readClose && s.unread <= 2048}
+		s.arrivals = append(s.arrivals[:len(s.arrivals)-1], b, a)
+		if !s.readClose {
+			s.unread += n
+		}
+		a.mustN = []bool{!s.readClose && s.unread-n <= 2048} // (A is complete after B: B's bytes are unread by then)
+		dg2 := codec.EncodeUDP([]byte(other), []byte(dst), sport, s.port, b.payload)
+		cut := (len(dg) / 2) &^ 7
+		w.ipid++
+		fr := func(from tcpip.Address, d []byte, first bool) []byte {
+			if first {
+				return codec.IPv4([]byte(from), []byte(dst), codec.ProtoUDP, w.ipid, 64, false, true, 0, d[:cut])
+			}
+			return codec.IPv4([]byte(from), []byte(dst), codec.ProtoUDP, w.ipid, 64, false, false, cut, d[cut:])
+		}
+		w.Inject4(fr(src, dg, true), 0)
+		w.Inject4(fr(other, dg2, true), 0)
+		w.Inject4(fr(other, dg2, false), 0)
+		w.Inject4(fr(src, dg, false), 0)
+		w.Probes["interleaved_fragments_of_two_senders"]++
+		w.Take()
+		return
+	}
+	// a short frame is padded by the link (an Ethernet frame has at least 46 bytes of payload): what lies
+	// behind the IP packet is not part of the datagram
+	var pad []byte
+	if flags&16 != 0 && n <= 40 {
+		pad = bytes.Repeat([]byte{0xdd}, 1+(w.narr*7)%18)
+		w.Probes["arrivals_with_link_padding"]++
+	}
 	if dup {
 		// wire duplication: a second arrival with the same bytes from the same sender
 		// (registered before the first copy is injected: a reader may be waiting)
@@ -199,7 +235,7 @@ func (w *udpWorld) arrive(si, n, srcSel, flags int, wait bool) {
 	for k := 0; k < 1+b2i(dup); k++ {
 
 		if v6 {
-			pkt := codec.IPv6([]byte(src), []byte(dst), codec.ProtoUDP, 64, dg)
+			pkt := append(codec.IPv6([]byte(src), []byte(dst), codec.ProtoUDP, 64, dg), pad...)
 			if wait {
 				w.Inject6(pkt, (flags>>2)%3)
 			} else {
@@ -207,7 +243,7 @@ func (w *udpWorld) arrive(si, n, srcSel, flags int, wait bool) {
 			}
 		} else {
 			w.ipid++
-			pkt := codec.IPv4([]byte(src), []byte(dst), codec.ProtoUDP, w.ipid, 64, false, false, 0, dg)
+			pkt := append(codec.IPv4([]byte(src), []byte(dst), codec.ProtoUDP, w.ipid, 64, false, false, 0, dg), pad...)
 			if wait {
 				w.Inject4(pkt, (flags>>2)%3)
 			} else {
@@ -569,11 +605,11 @@ func (w *udpWorld) next() Step {
 		return Step{Op: "linkfault", A: r.Intn(2)}
 	case 0:
 		if w.YieldP > 0 && r.Chance(0.6) {
-			return Step{Op: "narrive", A: si, B: r.Intn(4), C: r.Intn(16), D: int64(udpLen(r))}
+			return Step{Op: "narrive", A: si, B: r.Intn(4), C: r.Intn(64), D: int64(udpLen(r))}
 		}
-		return Step{Op: "arrive", A: si, B: r.Intn(4), C: r.Intn(16), D: int64(udpLen(r))}
+		return Step{Op: "arrive", A: si, B: r.Intn(4), C: r.Intn(64), D: int64(udpLen(r))}
 	case 1:
-		return Step{Op: "narrive", A: si, B: r.Intn(4), C: r.Intn(16), D: int64(udpLen(r))}
+		return Step{Op: "narrive", A: si, B: r.Intn(4), C: r.Intn(64), D: int64(udpLen(r))}
 	case 2:
 		return Step{Op: "burst", A: si, B: r.Range(2, 40), C: r.Intn(16), D: int64([]int{100, 1000, 2000, 8000}[r.Intn(4)])}
 	case 3:
